@@ -81,6 +81,53 @@ def tolerance_stage(exe, tier, sd):
     return g, res, runs, out, verdicts
 
 
+def precision_stage(exe, tier, sd, v):
+    """sol:chk:prec / sol:chk:round (SolPrec.tla): the check looks at the rounded point."""
+    g = tlc("GenPrec", "GenPrec.cfg", cwd=sd, workers=NPROC)
+    tlc_must_pass(g, "GenPrec")
+    gen = sorted(printed_json(g, "CASE"), key=lambda c: json.dumps(c, sort_keys=True))
+    if len(gen) != 2706:
+        raise Broken("GenPrec produced %d cases" % len(gen))
+    if sum(1 for c in gen if c["violated"]) < 500 or sum(1 for c in gen if c["r"] != c["c"]["m"]) < 800:
+        raise Broken("GenPrec: too few cases where rounding matters")
+    runs = []
+    for c in gen:
+        cc = c["c"]
+        x = cc["m"] / 1e6
+        t = c["t2"] / 2e6
+        model = {"vars": [{"lb": -5000.0, "ub": 5000.0}, {"lb": 0.0, "ub": 1.0}],
+                 "cons": [{"lb": None if cc["rel"] == "le" else t, "ub": t if cc["rel"] == "le" else None, "lin": [[0, 1], [1, 1]]}],
+                 "objs": [{"max": False, "lin": [[0, 1]]}]}
+        opts = ["sol:chk:mode=3", "sol:chk:feastol=1e-9", "sol:chk:feastolrel=0", "cvt:pre:all=0"]
+        if cc["opt"] == "prec": opts.append("sol:chk:prec=%d" % cc["n"])
+        if cc["opt"] == "round": opts.append("sol:chk:round=%d" % cc["n"])
+        runs.append({"id": len(runs), "model": model, "opts": opts, "answer": "status 0 scripted\nprimal %r 0\nobjvals %r\n" % (x, x), "c": cc})
+    out = drv.run_cases(exe, PID + "p", runs)
+    lines = []
+    for r_, o in zip(runs, out):
+        s = o["sol"]
+        if o["hang"] or o["rc"] != 0 or not s:
+            lines.append({"e": "Crash", "id": r_["id"]}); continue
+        lines.append({"e": "Run", "id": r_["id"], "c": r_["c"], "warn": "Tolerance violations" in s["msg"]})
+    tp = os.path.join(outdir(PID), "prec-%s.ndjson" % tier)
+    with open(tp, "w") as f:
+        for e in lines:
+            f.write(json.dumps(e) + "\n")
+    ok, res = validate_trace("TraceSolPrec", "TraceSolPrec.cfg", tp, cwd=sd)
+    done = printed_json(res, "DONE")
+    if len(done) != 1 or done[0]["n"] != len(lines):
+        raise Broken("TraceSolPrec did not consume the trace\n" + res.out[-2000:])
+    for b in printed_json(res, "BAD"):
+        r_ = runs[b["id"]]; cc = r_["c"]
+        v.violation("prec-%s:%s:n%d:%s:%s" % ("missed" if b["want"] else "false-alarm", cc["opt"], cc["n"], cc["side"], "small" if abs(cc["m"]) < 1000000 else "large"),
+                    "point x = %r, option %s=%d, constraint x %s %r: the rounded point is %r, so a violation %s be reported, but it %s"
+                    % (cc["m"] / 1e6, cc["opt"], cc["n"], "<=" if cc["rel"] == "le" else ">=", gen[b["id"]]["t2"] / 2e6, b["rounded"] / 1e6,
+                       "has to" if b["want"] else "must not", "was not" if b["want"] else "was"),
+                    {"case": cc, "opts": r_["opts"], "answer": r_["answer"], "model": r_["model"]})
+    return {"cases": len(gen), "rounding_matters": sum(1 for c in gen if c["r"] != c["c"]["m"]), "states": g.distinct + res.distinct,
+            "transitions": g.generated + res.generated, "bad": len(printed_json(res, "BAD"))}
+
+
 def run(tier):
     t0 = time.time()
     sd = os.path.join(SPECS, "flat")
@@ -183,6 +230,7 @@ def run(tier):
                      "0" if c.get("rz") else "2^-%s" % c.get("r"), c.get("i"), c.get("mode"), " sol:chk:fail" if c.get("fail") else "",
                      vd["v"], (sol["msg"][:300] if sol else None)),
                     {"case": c, "opts": r_["opts"] if r_ else None, "answer": r_["answer"] if r_ else None})
+    prec = precision_stage(exe, tier, sd, v)
     rcode, nnew = v.finish()
     # non-vacuity of the tolerance clause: every item kind was both reported and accepted
     tout_by = {}
@@ -197,6 +245,7 @@ def run(tier):
                 raise Broken("tolerance clause vacuous for '%s': %s" % (w, tout_by))
     allres = res1 + res2 + rest
     write_evidence(PID, tier, {
+        "precision_stage": prec,
         "states": gres.distinct + sum(r.distinct for r in allres), "transitions": gres.generated + sum(r.generated for r in allres),
         "traces_validated_against_impl": len(checks),
         "samples": [runs[i]["meta"] for i in (0, len(runs) // 2, len(runs) - 1)] if runs else ["none"],
